@@ -491,6 +491,50 @@ def rule_toggle_chain(ctx, prop):
                                   f"{f.path} applies check_toggle_formatting to a Context that does not come from the earlier "
                                   f"check_toggle_formatting calls of the same walk (its own parameter): an `-- stylua: ignore start` "
                                   f"region still open at that point is forgotten, and the element is reformatted", f.loc(t["sp"]), cfg)
+        # a single call inside a loop body or inside the closure of an iterator adaptor: the state must be carried from one
+        # element to the next (a loop-carried local, or a captured Context that is written back)
+        for f in prog.fns("stylua_lib"):
+            sites = [(b, t) for b, t in f.calls() if callee(t) == TOGGLE]
+            if not sites:
+                continue
+            for b, t in sites:
+                in_loop = any(b in f.reach_from(s_) for s_ in f.succ[b])
+                if f.kind != "Closure" and not in_loop:
+                    continue
+                if f.kind != "Closure" and len(sites) >= 2:
+                    continue        # judged above
+                n += 1
+                pr = provenance(f, t["args"][0])
+                if f.kind == "Closure":
+                    ups = {r[1] for r in pr if r[0] == "upvar"}
+                    d = t["dst"]["l"]
+                    carried = False
+                    holders = {d}
+                    for _ in range(4):
+                        for b2, si_, s2 in f.stmts():
+                            if s2["k"] == "assign" and s2["rv"]["k"] == "use" and not is_const(s2["rv"]["o"]) and \
+                                    op_place(s2["rv"]["o"])["l"] in holders and not op_place(s2["rv"]["o"]).get("p"):
+                                dl = s2["dst"]["l"]
+                                via_upvar = dl == 1 or any(si3 != "term" and s3["rv"]["k"] == "use" and not is_const(s3["rv"]["o"])
+                                                           and op_place(s3["rv"]["o"])["l"] == 1
+                                                           for b3, si3, s3 in f.defs().get(dl, []))
+                                if s2["dst"].get("p") and via_upvar:
+                                    carried = True
+                                elif not s2["dst"].get("p"):
+                                    holders.add(s2["dst"]["l"])
+                    threaded = carried or any(r[0] == "call" and r[1] == TOGGLE for r in pr)
+                    # a closure that is not driven over a sequence (called once) has nothing to carry
+                    if not ups and not carried:
+                        continue
+                else:
+                    threaded = any(r[0] == "call" and r[1] == TOGGLE for r in pr)
+                rep.inst(f"{f.key} check_toggle_formatting carries its state to the next element", {"at": f.loc(t["sp"])}, cfg, ok=threaded)
+                if not threaded:
+                    rep.violation(f"{f.key} toggle-state-not-carried",
+                                  f"{f.path} calls check_toggle_formatting for each element of a sequence but starts every time from "
+                                  f"the same outer Context (the result is not kept for the next element): only the element that "
+                                  f"carries `-- stylua: ignore start` itself is skipped, the rest of the ignored region is formatted",
+                                  f.loc(t["sp"]), cfg)
         rep.floor("later check_toggle_formatting calls", n, 1, cfg)
     return rep
 
